@@ -379,10 +379,10 @@ def c12_current_state(tier="quick", seed=0):
 def _kept_method(Context):
     """ctx.eval("var m = [1,2,3].map"); (time passes) ctx.eval("m(f)") -- the method value is used in a later evaluation"""
     import time as _t
-    c = Context(time_limit=0.3)
+    c = Context(time_limit=1.0)
     c.eval("var m = [1, 2, 3].map; 0")
-    _t.sleep(0.4)
-    a = c.eval("m(function (x) { for (var i = 0; i < 3000; i++); return x }).join()")
+    _t.sleep(1.1)
+    a = c.eval("m(function (x) { for (var i = 0; i < 300; i++); return x }).join()")
     b = c.eval("var r; try { m(function () { throw 5 }) } catch (e) { r = 'caught ' + e } r")
     return f"{a}|{b}"
 
